@@ -41,6 +41,13 @@ WindowFaults ==
   /\ \A d \in {"A", "B"} : \A h \in held'[d] : d = "B" /\ h.p.k = "SACK"
 EmitWindowSched == WindowFaults /\ EmitSched
 
+\* generator for the T3-under-a-closed-window schedules: the peer falls silent (an outage of A's DATA, or single
+\* losses of A's DATA) while the advertised window is exhausted and more data is queued
+T3WindowFaults ==
+  (faults' # faults) =>
+     LET f == faults'[Len(faults')] IN f.dir = "A" /\ f.k = "DATA" /\ f.kind \in {"outage", "drop"}
+EmitT3WindowSched == T3WindowFaults /\ EmitSched
+
 \* deviation-on models are unbounded (every late COOKIE-ECHO opens again, every reset can re-deliver):
 \* bound the history counters so that a targeted run terminates
 DevBound == /\ \A s \in Side : opens[s] <= 2
